@@ -98,12 +98,14 @@ source_for(const std::string &profile, const std::string &prop, int tier)
                 };
 
         if (profile == "indep") {
-                // C17: each task's history must equal the history of the same task run alone
+                // C17: each task's history must equal the history of the same task run alone; every execution happens in a
+                // forked child so that whatever a run leaves in the library's process-wide state cannot reach the next one
+                s.isolate = true;
                 s.post = [](const Plan &p, const RunResult &r, std::vector<Violation> &out) {
                         for (size_t t = 0; t < p.task_cfg.size(); t++) {
                                 RunOpts o;
                                 o.only_task = (int) t;
-                                RunResult alone = run_plan(p, o);
+                                RunResult alone = run_plan_isolated(p, o);
                                 if (alone.task_hash[t] != r.task_hash[t]) {
                                         Violation v;
                                         v.prop = "C17";
